@@ -144,7 +144,9 @@ PROPS = {
         "note": "Trusted: Lean kernel; axioms propext, Classical.choice, Quot.sound; price normalisation is C12's model (Knut.Model.Prices); text-table parsing of the harness (indentation -> account path); the rendering of a numeric cell to text is C17's theorem.",
         "rule": "journals with price histories (sparse/daily redeclarations, direct, inverse and chained declarations, an eighth with some declarations dropped so that valuation must fail), "
                 "position histories with sign changes and liabilities, many-decimal quantities; stream valued: -v V, all intervals, --from/--to/--last, --close on/off, --digits 10; stream modes: additionally "
-                "-m level[:suffix][,regex] (1-2 rules), --remap, --account, -s, --diff. class = (outcome, flag signature, size bucket).",
+                "-m level[:suffix][,regex] (1-2 rules), --remap, --account, -s, --diff; stream text: the journal as text over an include tree (prices in files of their own: one / by age / per day / per commodity; "
+                "flat, index file, chain; sub-directories; names with glob characters), in half of the cases one member missing / renamed / a directory / a dangling symlink / named by a glob pattern: the command must fail, "
+                "and every tree that loads has its A/L cells checked against Spec.mtm of the union of the files. class = (outcome, flag signature, size bucket; text: layout, tree, fault, what the lost part holds, depth, files).",
         "assumptions": ["no --commodity filter in this check's flag vectors (the filtered sum of positions is not assembled into a theorem)"],
     },
     "C09": {
